@@ -42,6 +42,19 @@ Example C17_example :
   is_Some (s' !! [[97%N]; [98%N]; [99%N]]) /\ is_Some (s' !! [[97%N]; [100%N]]).
 Proof. vm_compute. repeat split; eauto; repeat constructor. Qed.
 
+(** ** through an AltrootFS over a MemoryFS: create_dir on q is the underlying create_dir on root ++ q
+    (the C07_exact theorems), so a create_dir_all thread walks the shifted prefixes; the altroot's root must be a
+    directory of the underlying filesystem *)
+Theorem C17_altroot_all_succeed : forall (s : mstate) (root : list (list N)) (Ps : list (list (list N))) (sch : list nat),
+  wf s -> is_dir s root -> Forall (fun P => Forall (not_file s) (map (app root) (prefixes P))) Ps ->
+  let '(s', pool') := crun sch s (map (fun P => Some (alt_cda_thread root P)) Ps) in
+  Forall (fun x => x <> None) pool' /\
+  Forall (fun x => match x with
+                   | Some t => ct_todo t = [] -> Forall (is_dir s') (ct_done t)
+                   | None => False
+                   end) pool'.
+Proof. exact altroot_create_dir_all_concurrent. Qed.
+
 (** ** through an OverlayFS over two MemoryFS layers
     The overlay's create_dir is some fifteen calls on its layers (resolve the parent, copy the parent
     chain up, resolve the target, create it in the write layer, remove its deletion marker), and a
@@ -127,3 +140,4 @@ Print Assumptions C17_example.
 Print Assumptions C17_overlay_all_succeed.
 Print Assumptions C17_overlay_example.
 Print Assumptions C17_overlay_hypotheses.
+Print Assumptions C17_altroot_all_succeed.
